@@ -33,7 +33,18 @@ type c19Params struct {
 	// SpillFault > 0: while rows SpillFault..SpillFault+3 are added the spill directory does not exist; AddRow's error is
 	// ignored (as ReingestTable does) and the outputs must still hold every row
 	SpillFault int `json:"spill_fault,omitempty"`
+	// Ragged: rows keep only their first w cells, w between the last key column and the full width, differently per row
+	// (what the merge collector feeds its sorter when a branch only appended columns: untouched rows keep the base width)
+	Ragged bool `json:"ragged,omitempty"`
+	// Reuse > 0: the sorter has been used before for another, wider table of Reuse rows (which spilled under the same run
+	// size) and was Reset, as the doctor's resolver does between tables; 2 = that table's rows were also read out first
+	Reuse     int  `json:"reuse,omitempty"`
+	ReuseRead bool `json:"reuse_read,omitempty"`
 }
+
+// c19Prev is the table a reused sorter held before Reset.
+var c19Prev *gen.Table
+var c19PrevRead bool
 
 func toU32(a []int) []uint32 {
 	r := make([]uint32, len(a))
@@ -123,6 +134,23 @@ func feedSorter(rows [][]string, cols []string, pk []int, runSize uint64, withPr
 			return nil, err
 		}
 		return s, nil
+	}
+	if c19Prev != nil {
+		if withProfiler {
+			s.SetColumns(c19Prev.Cols)
+		} else {
+			s.Columns = append([]string(nil), c19Prev.Cols...)
+		}
+		s.PK = toU32(pk)
+		for _, r := range c19Prev.Rows {
+			if err := s.AddRow(r); err != nil {
+				return nil, err
+			}
+		}
+		if c19PrevRead {
+			drainRows(s, nil)
+		}
+		s.Reset()
 	}
 	if withProfiler {
 		s.SetColumns(cols)
@@ -264,6 +292,27 @@ func c19Run(c *fw.Case, env *fw.Env) *fw.Obs {
 		t = gen.Normalize(t)
 		p.Removed = nil
 	}
+	if p.Ragged && len(p.PK) > 0 && !p.ViaFile {
+		p.Removed = nil
+		minW := 0
+		for _, k := range p.PK {
+			if k+1 > minW {
+				minW = k + 1
+			}
+		}
+		for i, r := range t.Rows {
+			t.Rows[i] = r[:minW+rng.Intn(len(r)-minW+1)]
+		}
+		o.Ev("cases_with_rows_of_different_widths", 1)
+	}
+	c19Prev = nil
+	if p.Reuse > 0 && !p.ViaFile {
+		extra := 1 + rng.Intn(2)
+		c19Prev = gen.GenTable(rng, gen.Opts{Rows: p.Reuse, NCols: len(t.Cols) + extra, Style: gen.CellStyle(p.Style), PK: p.PK, DupRate: p.Dup})
+		c19PrevRead = p.ReuseRead
+		o.Ev("cases_on_a_sorter_reset_after_another_table", 1)
+	}
+	defer func() { c19Prev = nil }()
 	removed := map[int]struct{}{}
 	for _, r := range p.Removed {
 		removed[r] = struct{}{}
@@ -297,7 +346,7 @@ func c19Run(c *fw.Case, env *fw.Env) *fw.Obs {
 	outs := map[string]sorterOut{}
 	spilled := 0
 	for _, which := range []string{"SortedBlocks", "SortedRows"} {
-		s, err := feedSorter(t.Rows, t.Cols, p.PK, runSize, len(removed) == 0, p.ViaFile)
+		s, err := feedSorter(t.Rows, t.Cols, p.PK, runSize, len(removed) == 0 && !p.Ragged, p.ViaFile)
 		if err != nil {
 			o.Violate("sorter-error/AddRow/"+class, "AddRow: %v", err)
 			return o
@@ -389,7 +438,7 @@ func init() {
 	fw.Register(&fw.Property{
 		ID:          "C19",
 		Level:       "exploration",
-		Rule:        "seeded row multisets from a tiny alphabet (ties on first key component, equal keys across chunks, empty key) x key {single, composite in any order, none} x run sizes giving 0/1/2/5/one-per-row spills x removed-column sets (never a key column); two sorters fed identically, through AddRow or (a quarter of the cases) through SortFile; in some cases spill-file creation fails for four rows and the caller carries on; both outputs compared with sort+dedupe of the input minus removed columns; temp dir listed after Close; distinct_nontrivial = distinct (key shape, spill, removal, dups, rows, seed) cases with >=2 rows",
+		Rule:        "seeded row multisets from a tiny alphabet (ties on first key component, equal keys across chunks, empty key) x key {single, composite in any order, none} x run sizes giving 0/1/2/5/one-per-row spills x removed-column sets (never a key column); two sorters fed identically, through AddRow or (a quarter of the cases) through SortFile; in some cases spill-file creation fails for four rows and the caller carries on, rows have different widths (as in a merge whose branches only appended columns), or the sorter was used for another, wider table before and Reset (as the doctor does); both outputs compared with sort+dedupe of the input minus removed columns; temp dir listed after Close; distinct_nontrivial = distinct (key shape, spill, removal, dups, rows, seed) cases with >=2 rows",
 		Assumptions: []string{"removed columns are never key columns", "which duplicate survives is free"},
 		Gen: func(tier string, seed int64) []fw.Case {
 			l := fw.NewCaseList("C19", tier, seed)
@@ -445,6 +494,11 @@ func init() {
 					p.ViaFile, p.Removed = true, nil
 				} else if rng.Intn(6) == 0 && p.Rows > 12 && (p.Chunks == "two" || p.Chunks == "five" || p.Chunks == "every") {
 					p.SpillFault = 1 + rng.Intn(p.Rows-6)
+				} else if i%9 == 4 && len(p.PK) > 0 && p.NCols >= 2 {
+					p.Ragged = true
+				}
+				if i%8 == 5 && !p.ViaFile {
+					p.Reuse, p.ReuseRead = 5+rng.Intn(300), rng.Intn(2) == 0
 				}
 				l.Add("random", p, 0)
 			}
